@@ -529,9 +529,11 @@ def canon_guard_semantics(ctx, scope):
             continue
         lo, ro = origin(en, cond[2]), origin(en, cond[3])
         op = cond[1]
-        if 'unnamed_in_progress' in ro.fields and COUNTER in lo.fields:
+        # (the entry side is the one read from the table; flow-insensitive provenance may fold the stored generation back
+        # into it, so the counter on that side too is not a reason to look away)
+        if 'unnamed_in_progress' in ro.fields and 'unnamed_in_progress' not in lo.fields and COUNTER in lo.fields:
             lo, ro, op = ro, lo, FLIP[op]
-        if not ('unnamed_in_progress' in lo.fields and COUNTER in ro.fields and COUNTER not in lo.fields):
+        if not ('unnamed_in_progress' in lo.fields and COUNTER in ro.fields and 'unnamed_in_progress' not in ro.fields):
             continue
         edges = _switch_edges(en, bb)
         if edges is None:
@@ -558,14 +560,56 @@ def canon_guard_semantics(ctx, scope):
         errs = all_paths_err(en, other)
         ok = strict and marks and errs and plus and bool(ok_return_blocks(en, en.reachable_from(older)))
         det = 'entry older than the current generation => generation stored and Ok: %s; otherwise Err: %s; equal generations refused: %s; generation is 1 + named types written (never the idle value 0): %s' % (marks, errs, strict, plus)
+    if not ok:
+        # the same guard with the idle state spelled None: `entry.map_or(true, |at| at < written)` => store Some(written), Ok;
+        # otherwise Err (the comparison lives in the closure handed to map_or)
+        for bb, t in en.calls():
+            if en.is_cleanup(bb) or not strip_generics(cname(t)).endswith('Option::map_or') or 'unnamed_in_progress' not in origin(en, t['args'][0]).fields:
+                continue
+            dflt = const_int(t['args'][1]) == 1
+            strict_c = False
+            for cb in f.closures_of(en):
+                for cbb in sorted(cb.live_blocks()):
+                    for s_ in cb.stmts(cbb):
+                        if 'assign' in s_ and s_['rv']['k'] == 'bin' and s_['rv']['op'] in ('Lt', 'Gt'):
+                            lo_, ro_ = origin(cb, s_['rv']['l']), origin(cb, s_['rv']['r'])
+                            if s_['rv']['op'] == 'Gt':
+                                lo_, ro_ = ro_, lo_
+                            # entry (the closure's own argument) < counter (captured)
+                            strict_c = strict_c or (bool(lo_.params()) and 'upvar' not in lo_.flags and ('upvar' in ro_.flags or COUNTER in ro_.fields))
+            sw = t.get('target')
+            if sw is None or en.term(sw)['k'] != 'switch':
+                continue
+            edges = _switch_edges(en, sw)
+            if edges is None:
+                continue
+            t_edge, f_edge = edges
+            marks = False
+            for x in en.reachable_from(t_edge):
+                for s_ in en.stmts(x):
+                    if 'assign' in s_ and s_['assign'].get('p') and 'unnamed_in_progress' in origin(en, s_['assign']).fields:
+                        vo = origin(en, s_['rv']['op']) if s_['rv']['k'] == 'use' else None
+                        if s_['rv']['k'] == 'agg' and s_['rv'].get('variant') == 'Some':
+                            vo = origin(en, s_['rv']['ops'][0])
+                        if vo is not None and (COUNTER in vo.fields or any(a[0] == 'agg' and a[2] == 'Some' for a in vo.atoms)):
+                            marks = True
+            errs = all_paths_err(en, f_edge)
+            ok = dflt and strict_c and marks and errs and bool(ok_return_blocks(en, en.reachable_from(t_edge)))
+            det = 'idle (None) or entered before the last named type was written => Some(written) stored and Ok: %s; otherwise Err: %s; equal refused: %s; idle default admits: %s' % (marks, errs, strict_c, dflt)
     ctx.ob('RECGUARD-T', 'canon/enter-refuses-in-progress', ok, short_loc(en.span), det)
-    # leave: writes the idle value 0
+    # leave: writes the idle value (0, or None)
     okl = False
     for x in lv.live_blocks():
         for s_ in lv.stmts(x):
-            if 'assign' in s_ and s_['assign'].get('p') and s_['rv']['k'] == 'use' and const_int(s_['rv']['op']) == 0 and 'unnamed_in_progress' in origin(lv, s_['assign']).fields:
-                okl = True
-    ctx.ob('RECGUARD-T', 'canon/leave-clears', okl, short_loc(lv.span), 'the leave helper resets the entry to the idle value 0: %s' % okl)
+            if 'assign' in s_ and s_['assign'].get('p') and 'unnamed_in_progress' in origin(lv, s_['assign']).fields:
+                if s_['rv']['k'] == 'use' and const_int(s_['rv']['op']) == 0:
+                    okl = True
+                if s_['rv']['k'] == 'agg' and s_['rv'].get('adt') == 'core::option::Option' and s_['rv'].get('variant') == 'None':
+                    okl = True
+                if s_['rv']['k'] == 'use' and any(a[0] == 'agg' and a[1] == 'core::option::Option' and a[2] == 'None' for a in origin(lv, s_['rv']['op']).atoms) and \
+                        not any(a[0] == 'agg' and a[2] == 'Some' for a in origin(lv, s_['rv']['op']).atoms):
+                    okl = True
+    ctx.ob('RECGUARD-T', 'canon/leave-clears', okl, short_loc(lv.span), 'the leave helper resets the entry to the idle value (0 / None): %s' % okl)
     # the generation moves exactly when a named type is written in full: the only writes of the counter are `+= 1` next to
     # the first-occurrence mark (named_type_written[key] = true) - counting references or unnamed nodes would let an
     # unbreakable cycle through
